@@ -17,11 +17,12 @@ use std::rc::Rc;
 fn crash_cfg(prop: &str, seed: u64, index: u64) -> HistCfg {
     let mut rng = Rng::from_parts(&[seed, index, 0xC7A5, prop.len() as u64 + prop.as_bytes()[2] as u64]);
     let fat32 = rng.chance(1, 5);
+    let edge = index % 8 == 7;
     HistCfg {
         prop: prop.to_string(),
         seed,
         index,
-        profile: *rng.pick(&[Profile::Dirs, Profile::Dirs, Profile::Mixed, Profile::Fill, Profile::Grow]),
+        profile: if edge { Profile::Edge } else { *rng.pick(&[Profile::Dirs, Profile::Dirs, Profile::Mixed, Profile::Fill, Profile::Grow]) },
         limits: (4, 4, 1),
         id_offset: 5000,
         nops: 15 + rng.usize_below(90),
@@ -29,9 +30,10 @@ fn crash_cfg(prop: &str, seed: u64, index: u64) -> HistCfg {
         fat32: Some(fat32),
         max_spc: *rng.pick(&[1u32, 1, 2, 4]),
         recipe: *rng.pick(&[Recipe::Small, Recipe::Rich, Recipe::Empty]),
-        leave_free: if rng.chance(1, 3) { Some((*rng.pick(&[2u32, 6, 30]), rng.below(3) as u32)) } else { None },
+        leave_free: if edge { Some((*rng.pick(&[0u32, 1, 2, 3]), rng.below(3) as u32)) } else if rng.chance(1, 3) { Some((*rng.pick(&[2u32, 6, 30]), rng.below(3) as u32)) } else { None },
         force_two_fats: false,
         fsinfo: None,
+        full_dir: edge,
     }
 }
 
